@@ -468,6 +468,29 @@ def rule_r10(repo, run):
     run.ok(R, "splicer-comment lists", sample=dict(tests=n))
 
 
+def rule_r11(repo, run):
+    R = run.rule("C16.R11", "text of the input file that is written inside a block comment cannot end the block: the writer of "
+                            "documentation lines takes the closer of the language's block comment out of the text")
+    um = repo.module("util")
+    fn = um.func("WrapperMixin.write_doxygen_lines")
+    # languages whose doxygen block is closed by a token that can occur in text
+    closers = set()
+    for mn in ("wrapc", "wrapf", "wrapp", "wrapl"):
+        m = repo.module(mn)
+        for a in ast.walk(m.tree):
+            if isinstance(a, ast.Assign) and isinstance(a.targets[0], ast.Attribute) and a.targets[0].attr == "doxygen_end" \
+                    and pyflow.const_str(a.value):
+                closers.add(pyflow.const_str(a.value).strip())
+    block = sorted(c for c in closers if c in ("*/",))
+    if not block:
+        raise AnalysisError("C16.R11: no wrapper closes its documentation block with */ any more")
+    reps = [c for c in ast.walk(fn) if isinstance(c, ast.Call) and isinstance(c.func, ast.Attribute) and c.func.attr == "replace"
+            and c.args and pyflow.const_str(c.args[0]) == "*/" and len(c.args) > 1 and "*/" not in (pyflow.const_str(c.args[1]) or "*/")]
+    run.check(R, "util.WrapperMixin.write_doxygen_lines:comment-closer", bool(reps),
+              "the lines of `brief:` / `description:` are written between `/**` and `*/` unchanged: a `*/` in the text ends the "
+              "comment and the rest of the line is compiled - only when doxygen is on", um.loc(fn))
+
+
 def run(repo, run, tier):
     R1 = run.rule("C16.R1", "both branches of every debug/doxygen/literalinclude/show_splicer_comments guard "
                             "have comment-only effects")
@@ -832,6 +855,7 @@ def run(repo, run, tier):
                           % (mod.seg(raw[0]) if raw else ""), mod.loc(c))
     run.floor(R1, "comment lines built by concatenation", nc, 10)
     rule_r10(repo, run)
+    rule_r11(repo, run)
     run.assumptions.append("comment leaders: // /* * for the C family, ! for Fortran, self.comment / "
                            "self.doxygen_* attributes, cstart/cend/fstart/fend constants")
 
